@@ -73,6 +73,7 @@ struct Ep
 	int backlog = 0;
 	std::deque<int> pending;
 	bool peerGone = false;  // peer closed (our sends fail after that)
+	bool sentIntoClosed = false; // TCP: the first send after the peer's graceful close is still accepted (the RST comes back afterwards)
 	bool gotRst = false;
 	int conn = -1, side = 0;
 	int64_t latency = 0;
@@ -397,6 +398,13 @@ static ssize_t doSend(int fd, const void* data, size_t n, bool whole)
 		}
 		if (!p || e->peerGone)
 		{
+			if (e->family == AF_INET && !e->sentIntoClosed)
+			{
+				// as the kernel does: the data is accepted, the peer answers with RST, later sends fail
+				e->sentIntoClosed = true;
+				st.bytesSent += n;
+				return (ssize_t)n;
+			}
 			errno = EPIPE;
 			return -1;
 		}
@@ -846,6 +854,11 @@ int __wrap_ioctl(int fd, unsigned long req, ...)
 	}
 	if (req == FIONREAD)
 	{
+		if (e->st == Ep::LISTEN && e->family == AF_INET)
+		{
+			errno = EINVAL; // as Linux answers for a listening TCP socket
+			return -1;
+		}
 		// asl passes a long*; the kernel writes an int
 		*(int*)arg = e->st == Ep::CONN ? (int)arrived(e) : 0;
 		return 0;
